@@ -414,11 +414,11 @@ fn unsupported_client(c: &Command, pre: &(String, Dump), post: &(String, Dump), 
 }
 
 /// … delivery events: `merged` = the key's value in the replication state after the merge
-fn unsupported_deliver(merged: Option<&MRv>, pre: &Dump, key: &str) -> &'static str {
-    let Some(m) = merged else { return "ok" };
-    if !m.wf() {
+fn unsupported_deliver(delta: &MRv, merged: Option<&MRv>, pre: &Dump, key: &str) -> &'static str {
+    if !delta.wf() {
         return "bad-delta";
     }
+    let Some(m) = merged else { return "ok" };
     let proper = |l: &MLww| l.tomb || l.v.is_some();
     match &m.crdt {
         MCrdt::H(h) => {
@@ -545,7 +545,7 @@ impl GCl {
         let snap = self.hs[j].get_snapshot().await;
         let post = dump(&self.hs[j]).await;
         let merged = snap.get(&d.key).map(MRv::from_real);
-        let sup = unsupported_deliver(merged.as_ref(), &pre.1, &d.key);
+        let sup = unsupported_deliver(&MRv::from_real(&d.value), merged.as_ref(), &pre.1, &d.key);
         out.count("b:deliver");
         out.count(&format!("b:sup:{}", sup));
         self.applied.insert((j, idx));
@@ -567,7 +567,7 @@ impl GCl {
         let snap = self.hs[j].get_snapshot().await;
         let post = dump(&self.hs[j]).await;
         let merged = snap.get(key).map(MRv::from_real);
-        let sup = unsupported_deliver(merged.as_ref(), &pre.1, key);
+        let sup = unsupported_deliver(v, merged.as_ref(), &pre.1, key);
         out.count("b:crafted-delta");
         out.count(&format!("b:sup:{}", sup));
         self.hist.push(format!("deliver crafted delta '{}' = {} to node{}", key, v.show(), j));
